@@ -56,6 +56,9 @@ type c19Scen struct {
 	CancelGapMs    int       `json:"cancel_gap_ms"`    // sleep before cancel
 	SettleMs       int       `json:"settle_ms"`        // sleep after the last executed step, before stop-reading / cancel
 	GoneWaitMs     int       `json:"gone_wait_ms"`     // how long to wait for monitor.go goroutines to end after cancel
+	// Broken: "" or "<dir index>:<dangling|missing|file>": that watched directory is, before the watcher starts, a dangling symbolic link /
+	// absent / a regular file (trees the loader accepts: it walks what is there); the other directories must be served as always
+	Broken string `json:"broken"`
 }
 
 type c19In struct {
@@ -276,6 +279,25 @@ func c19Run(sc *c19Scen, home string) (res c19Res) {
 		res.Setup = err.Error()
 		return
 	}
+	if sc.Broken != "" {
+		var bd int
+		var kind string
+		if _, err = fmt.Sscanf(strings.Replace(sc.Broken, ":", " ", 1), "%d %s", &bd, &kind); err != nil || bd < 0 || bd >= len(c19Dirs) {
+			res.Setup = "bad broken spec " + sc.Broken
+			return
+		}
+		os.RemoveAll(c19Dirs[bd])
+		switch kind {
+		case "dangling":
+			err = os.Symlink("does-not-exist", c19Dirs[bd])
+		case "file":
+			err = os.WriteFile(c19Dirs[bd], []byte("not a directory\n"), 0o644)
+		}
+		if err != nil {
+			res.Setup = err.Error()
+			return
+		}
+	}
 	for _, p := range sc.Pre {
 		path := c19Path(p.Dir, p.Sub, p.Name)
 		if err = os.WriteFile(path, []byte("[identifier]\nbus = 3\n"), 0o666); err == nil {
@@ -319,7 +341,7 @@ func c19Run(sc *c19Scen, home string) (res c19Res) {
 				res.Watches = n
 			}
 		}
-		if res.Watches >= 4 {
+		if res.Watches >= 4 || (sc.Broken != "" && res.Watches >= 3) {
 			break
 		}
 	}
@@ -331,7 +353,10 @@ func c19Run(sc *c19Scen, home string) (res c19Res) {
 		res.Setup = "reference watcher: " + err.Error()
 		return
 	}
-	for _, d := range c19Dirs {
+	for i, d := range c19Dirs {
+		if sc.Broken != "" && strings.HasPrefix(sc.Broken, fmt.Sprint(i)+":") {
+			continue // cannot be watched by anybody
+		}
 		if err = ref.Add(d); err != nil {
 			res.Setup = "reference watcher: " + err.Error()
 			ref.Close()
